@@ -16,6 +16,8 @@ pub enum Accept {
     Up,
     Refuse,
     Hang,
+    /// packets are dropped: the connect fails with a timeout after the kernel's SYN retries (127 s)
+    Blackhole,
 }
 
 #[derive(Clone, Debug, PartialEq, Eq)]
@@ -1105,7 +1107,16 @@ async fn serve_inner(net: Shared, id: usize, addr: String, s: &mut DuplexStream)
             return;
         }
         StartupMode::HangAfterAccept => {
-            std::future::pending::<()>().await;
+            // a stopped server: the connection is accepted by the kernel and nothing answers until the
+            // server runs again (startup mode set back to Normal), then the startup proceeds
+            net.lock().push(Rec::Note { msg: format!("conn {} startup hangs", id) });
+            loop {
+                tokio::time::sleep(std::time::Duration::from_millis(100)).await;
+                let m = net.lock().servers.get(&addr).map(|s| s.startup.clone()).unwrap_or(StartupMode::Normal);
+                if m != StartupMode::HangAfterAccept {
+                    break;
+                }
+            }
         }
         _ => {}
     }
